@@ -162,14 +162,17 @@ def eval_term(t, env=None):
     raise NotComparable("term " + k)
 
 
-def close(real, want, err):
+ATOL = 1e-13     # absolute floor: a result that cancels to ~0 in exact arithmetic carries float noise of this order for O(1)..O(100) operands
+
+
+def close(real, want, err, atol=ATOL):
     if isinstance(real, complex) or isinstance(want, complex):
         d = abs(complex(real) - complex(want))
     else:
         d = abs(real - want)
     if not (d == d) or math.isinf(abs(want)) or math.isinf(d):
         return False
-    return d <= RTOL * abs(want) + 16 * err + 1e-300
+    return d <= RTOL * abs(want) + 16 * err + atol + 1e-300
 
 
 def compare_number(spec, real, err=0.0):
@@ -193,6 +196,7 @@ def compare_number(spec, real, err=0.0):
             want = complex(want)
         elif isinstance(want, complex):
             return "specification term is complex-valued for kind %s" % k
-    if close(x, want, max(err, w_err)):
+    is_atom = (not spec["x"]) and spec["term"].get("t") == "atom"
+    if close(x, want, max(err, w_err), atol=0.0 if is_atom else ATOL):
         return None
     return "value %r, specification says %r (tolerance 1e-12 relative + %.3g)" % (x, want, 16 * max(err, w_err))
